@@ -19,7 +19,16 @@ def _results():
     if os.path.exists(cache):
         return json.load(open(cache)), True
     env = dict(os.environ, CARGO_NET_OFFLINE="true", CARGO_TARGET_DIR=os.path.join(CACHE, "target-witness"), RUSTFLAGS="-Awarnings", RUSTDOCFLAGS="-Awarnings")
-    p = subprocess.run(["cargo", "+nightly", "test", "--doc", "--offline"], cwd=WDIR, env=env, stdout=subprocess.PIPE, stderr=subprocess.STDOUT, text=True)
+    wdir = WDIR
+    if os.path.realpath(facts.REPO) != "/repo":
+        # sensitivity replay on a scratch copy of the tree: a copy of the witness crate that depends on that copy
+        import shutil
+        wdir = os.path.join(os.path.dirname(os.path.realpath(facts.REPO)), "witness")
+        if not os.path.exists(wdir):
+            shutil.copytree(WDIR, wdir, ignore=shutil.ignore_patterns("target"))
+            ct = open(os.path.join(wdir, "Cargo.toml")).read().replace('path = "/repo"', 'path = "%s"' % os.path.realpath(facts.REPO))
+            open(os.path.join(wdir, "Cargo.toml"), "w").write(ct)
+    p = subprocess.run(["cargo", "+nightly", "test", "--doc", "--offline"], cwd=wdir, env=env, stdout=subprocess.PIPE, stderr=subprocess.STDOUT, text=True)
     res = {}
     for m in re.finditer(r"^test src/lib\.rs - (\w+) \(line \d+\)(?: - (compile fail|compile))? \.\.\. (\w+)", p.stdout, re.M):
         res[m.group(1)] = {"kind": m.group(2) or "run", "result": m.group(3)}
